@@ -17,8 +17,7 @@
  *                            function and 0 only when every block has been
  *                            taken back, so this is the inductive step of
  *                            "finish() == 0 => no worker failed".)
- *   C09.bp.in_order          blocks are written in the order the pool hands
- *                            them back (io sequence numbers seq0, seq0+1, ..)
+ *   (the order in which blocks reach the writer is C02.io.order, not here)
  *   C09.bp.pool_pre / writer_pre   call-site preconditions of the contracts
  */
 #include <stdlib.h>
@@ -31,7 +30,7 @@ static sqfs_block_processor_t g_proc;
 void harness(void)
 {
 	sqfs_block_processor_t *proc = &g_proc;
-	size_t n = NPOOL, i;
+	size_t n = NPOOL;
 	bool has_cur = verif_nd_bool("has_cur"), has_frag = verif_nd_bool("has_frag");
 	sqfs_u32 seq0 = verif_nd_u32("io_seq_num");
 	int ret;
@@ -81,11 +80,6 @@ void harness(void)
 			     "C09.bp.error_surfaces");
 	if (ret == 0)
 		VERIF_ASSERT(!g_handed_while_failed, "C09.bp.failure_reported");
-	for (i = 0; i < 4; ++i) {
-		if (i < g_writes)
-			VERIF_ASSERT(g_write_seq[i] == seq0 + i, "C09.bp.in_order");
-	}
-	VERIF_ASSERT(g_writes <= g_next, "C09.bp.in_order");
 
 #if GIVEUP_AT >= 0 || NPOOL == 0
 	VERIF_COVER(ret != 0 && g_null_returned);
